@@ -50,6 +50,28 @@ KNOWN_KEYS = {
 }
 
 
+# the failing inputs of the six defects repaired by the fix-C12 commits (always run first; also the witnesses
+# replayed for a `known:` line should one of the repairs not be taken)
+KNOWN_WITNESSES = {
+    KNOWN_KEYS['downsample']: {'stage': 'downsample', 'p': {'q': 2}, 'two': False, 'ann': True, 's0': 0, 'fs': 1000.0,
+                               'sizes': [3, 3, 4], 'seed': 1},
+    KNOWN_KEYS['decimate']: {'stage': 'decimate', 'p': {'q': 3}, 'two': False, 'ann': False, 's0': 0, 'fs': 1000.0,
+                             'sizes': [5, 5], 'seed': 1},
+    KNOWN_KEYS['iirfilter']: {'stage': 'iirfilter', 'p': {'order': 1}, 'two': True, 'ann': True, 's0': 0, 'fs': 1000.0,
+                              'sizes': [2, 3], 'seed': 1},
+    KNOWN_KEYS['rms']: {'stage': 'rms', 'p': {'n': 2}, 'two': False, 'ann': True, 's0': 0, 'fs': 1000.0,
+                        'sizes': [1, 4, 1, 5], 'seed': 1},
+    KNOWN_KEYS['auto_th']: {'stage': 'auto_th', 'p': {'B': 4, 'nsd': 1, 'mode': 'positive', 'fsarg': 'auto'}, 'two': False,
+                            'ann': True, 's0': 0, 'fs': 1000.0, 'sizes': [3, 3, 4], 'seed': 1},
+    KNOWN_KEYS['event_rate']: {'stage': 'event_rate', 'p': {'bsz': 50, 'stp': 25}, 'lo': 0, 'fs': 1000.0, 'sizes': [200],
+                               'events': [10, 30, 80, 190]},
+}
+
+
+def corpus():
+    return [dict(c) for c in KNOWN_WITNESSES.values()]
+
+
 # ------------------------------------------------------------------ data
 def _gen(case, seed):
     N = sum(case['sizes'])
@@ -271,6 +293,11 @@ def _impl_array(case):
         if case['stage'] == 'derivative' and not case['ann']:
             return {'raised_allowed': 'AttributeError'}      # plain arrays have no .fs (documented scope)
         raise
+    except TypeError as e:
+        if case['stage'] == 'auto_th' and case['p'].get('fsarg') == 'auto':
+            # NOT allowed by the property: recorded as a value so that the failing input gets its key
+            return {'crash': f'TypeError: {e}'[:200]}
+        raise
     res = {'outs': [_encode(case, o, lookups) for o in outs],
            'one': [_encode(case, o, lookups) for o in one]}
     if case['ann'] and outs:
@@ -373,6 +400,8 @@ def _got(res, r):
 
 def term(case, res):
     st, p = case['stage'], case['p']
+    if 'crash' in res:
+        return 'false'
     # C12_MODEL_UNREPAIRED=1 compares with the `rep = false` variants of the model instead (used once, by hand, to
     # validate the `_unrepaired` model functions against the tree before the fix-C12 commits)
     rep = 'false' if os.environ.get('C12_MODEL_UNREPAIRED') else 'true'
@@ -448,6 +477,8 @@ def oracle(case, res):
     st, p = case['stage'], case['p']
     if 'raised_allowed' in res:
         return None
+    if 'crash' in res:
+        return f'{st}{p}: the stage cannot process the stream at all: {res["crash"]}'
     outs, one = res['outs'], res['one']
     if st == 'event_rate':
         return _oracle_events(case, res)
@@ -529,7 +560,7 @@ def _oracle_events(case, res):
 
 
 def nontrivial(case, res):
-    if len(case['sizes']) < 2 or (isinstance(res, dict) and 'raised_allowed' in res):
+    if len(case['sizes']) < 2 or (isinstance(res, dict) and ('raised_allowed' in res or 'crash' in res)):
         return False
     st = case['stage']
     if st in ('transform', 'mc_reference'):
